@@ -119,28 +119,28 @@ def fuzzyCap (o : FuzzyOpts) (size : Nat) : Nat :=
 section Scan
 variable {α β : Type}
 
-/-- The scan of one segment's keys with the shared counter `expanded_total`:
-`break` at the top when the cap is reached, `continue` when the key does not qualify,
-`break` right after the key that reaches the cap.  Returns the counter and the accepted
-contributions in order. -/
-def scanSeg (q : α → Option β) (cap : Nat) : Nat → List α → Nat × List β
+/-- LEGACY (before /repo commit e9ca503): the scan of one segment's keys with the shared counter
+`expanded_total`: `break` at the top when the cap is reached, `continue` when the key does not
+qualify, `break` right after the key that reaches the cap.  Returns the counter and the
+accepted contributions in order.  One unit of the cap per (segment, term). -/
+def legacy_scanSeg (q : α → Option β) (cap : Nat) : Nat → List α → Nat × List β
   | n, [] => (n, [])
   | n, e :: es =>
     if cap ≤ n then (n, [])
     else match q e with
-      | none => scanSeg q cap n es
+      | none => legacy_scanSeg q cap n es
       | some c =>
         if cap ≤ n + 1 then (n + 1, [c])
         else
-          let r := scanSeg q cap (n + 1) es
+          let r := legacy_scanSeg q cap (n + 1) es
           (r.1, c :: r.2)
 
-/-- the loop over segments (`if expanded_total >= cap { break }` after each segment) -/
-def scanSegs (q : α → Option β) (cap : Nat) : Nat → List (List α) → List β
+/-- LEGACY: the loop over segments (`if expanded_total >= cap { break }` after each segment) -/
+def legacy_scanSegs (q : α → Option β) (cap : Nat) : Nat → List (List α) → List β
   | _, [] => []
   | n, seg :: rest =>
-    let r := scanSeg q cap n seg
-    if cap ≤ r.1 then r.2 else r.2 ++ scanSegs q cap r.1 rest
+    let r := legacy_scanSeg q cap n seg
+    if cap ≤ r.1 then r.2 else r.2 ++ legacy_scanSegs q cap r.1 rest
 
 end Scan
 
@@ -172,11 +172,34 @@ def upsert (t : List κ) (df sc : Nat) : List (Cand κ) → List (Cand κ)
 def mergeAll (cs : List (List κ × Nat × Nat)) : List (Cand κ) :=
   cs.foldl (fun acc c => upsert c.1 c.2.1 c.2.2 acc) []
 
-/-- `collect_completion_candidates` -/
-def collect (segs : List (Dict κ)) (input : List κ) (size : Nat) (fz : Option FuzzyOpts) :
-    List (Cand κ) :=
+/-- `out.contains_key(term)` -/
+def hasTerm (acc : List (Cand κ)) (t : List κ) : Bool := acc.any (fun c => c.term == t)
+
+/-- The scan of one segment's keys (since /repo commit e9ca503): every key is visited; a key
+whose term is not yet in `out` is skipped once `out.len() >= cap`; terms already in `out` keep
+accumulating.  No `break`.  (The cap test sits before the qualification tests in the code; a
+key that fails them is skipped either way.) -/
+def scanSeg (q : List κ × Nat → Option (List κ × Nat × Nat)) (cap : Nat) :
+    List (Cand κ) → List (List κ × Nat) → List (Cand κ)
+  | out, [] => out
+  | out, e :: es =>
+    if cap ≤ out.length && !hasTerm out e.1 then scanSeg q cap out es
+    else match q e with
+      | none => scanSeg q cap out es
+      | some c => scanSeg q cap (upsert c.1 c.2.1 c.2.2 out) es
+
+/-- the loop over segments, `out` shared -/
+def scanSegs (q : List κ × Nat → Option (List κ × Nat × Nat)) (cap : Nat) :
+    List (Cand κ) → List (List (List κ × Nat)) → List (Cand κ)
+  | out, [] => out
+  | out, seg :: rest => scanSegs q cap (scanSeg q cap out seg) rest
+
+/-- the request's per-entry test, cap, and the option-driven early returns, shared by the
+current and the legacy collector -/
+def collectWith (scan : (List κ × Nat → Option (List κ × Nat × Nat)) → Nat → List (Cand κ))
+    (input : List κ) (size : Nat) (fz : Option FuzzyOpts) : List (Cand κ) :=
   match fz with
-  | none => mergeAll (scanSegs (qPrefix input) (prefixCap size) 0 segs)
+  | none => scan (qPrefix input) (prefixCap size)
   | some o =>
     if input.length < o.minLength || o.maxExpansions == 0 then []
     else
@@ -184,7 +207,18 @@ def collect (segs : List (Dict κ)) (input : List κ) (size : Nat) (fz : Option 
       if maxEdits == 0 then []
       else
         let pfx := input.take (min o.prefixLength input.length)
-        mergeAll (scanSegs (qFuzzy input pfx maxEdits) (fuzzyCap o size) 0 segs)
+        scan (qFuzzy input pfx maxEdits) (fuzzyCap o size)
+
+/-- `collect_completion_candidates` -/
+def collect (segs : List (Dict κ)) (input : List κ) (size : Nat) (fz : Option FuzzyOpts) :
+    List (Cand κ) :=
+  collectWith (fun q cap => scanSegs q cap [] segs) input size fz
+
+/-- LEGACY `collect_completion_candidates` (before e9ca503): the cap counts (segment, term)
+pairs -/
+def legacy_collect (segs : List (Dict κ)) (input : List κ) (size : Nat) (fz : Option FuzzyOpts) :
+    List (Cand κ) :=
+  collectWith (fun q cap => mergeAll (legacy_scanSegs q cap 0 segs)) input size fz
 
 /-- the comparator of `options.sort_by`: score descending, then text ascending.  Texts of
 distinct options are distinct (`suggest_terms_nodup`), so the comparator is total on what it
@@ -219,5 +253,11 @@ collect, sort, truncate -/
 def suggest {κ : Type} [DecidableEq κ] (ltT : List κ → List κ → Bool) (segs : List (Dict κ))
     (input : List κ) (size : Nat) (fz : Option FuzzyOpts) : List (Cand κ) :=
   if size = 0 then [] else (sortBy (before ltT) (collect segs input size fz)).take size
+
+
+/-- LEGACY `completion_suggest` (before /repo commit e9ca503) -/
+def legacy_suggest {κ : Type} [DecidableEq κ] (ltT : List κ → List κ → Bool) (segs : List (Dict κ))
+    (input : List κ) (size : Nat) (fz : Option FuzzyOpts) : List (Cand κ) :=
+  if size = 0 then [] else (sortBy (before ltT) (legacy_collect segs input size fz)).take size
 
 end SL.Suggest
